@@ -329,10 +329,39 @@ func runC12Close(r *Run, handover bool) {
 	w.finish()
 }
 
+// scC12LLClose: Close (on a time grid) while the client plays a Low-Latency origin that publishes its parts much
+// faster than they play: the downloader runs ahead and the queues between the client's stages fill up.
+func scC12LLClose(r *Run) {
+	T := r.T
+	o := genLLOrigin(r, Pick(T, 0.02, 0.05, 0.2, 1.0))
+	w := newCliWorld(r, o, o.primaryURL(), plainFate(T, Pick(T, 0, 2, 20)))
+	o.net = w.net
+	w.limit = 90 * time.Second
+	grid := time.Duration(Pick(T, 11, 37, 101)) * time.Millisecond
+	at := time.Duration(r.SweepPos) * grid
+	closes := 0
+	w.net.schedule(at, "custom", nil, func() {
+		closes++
+		r.Tracef("close at %v (wait seen: %v)", r.Now(), w.waitSeen)
+		r.Fault("close")
+		w.closeClient()
+	})
+	r.Tracef("ll origin style=%s parts=%d segs=%d closeAt=%v", o.style, len(o.parts), len(o.segParts), at)
+	w.run()
+	if closes == 0 {
+		w.closeClient()
+	}
+	r.Tracef("end: wait=%v err=%s requests=%d", w.waitSeen, describeErr(w.waitErr), len(w.net.log))
+	checkTermination(r, w, "", 0, true)
+	r.Stats.NonTrivial = true
+	w.finish()
+}
+
 func init() {
-	register(&PropDef{ID: "C12", Quick: 30000, Thorough: 600000, Profiles: []ProfileDef{
+	register(&PropDef{ID: "C12", Quick: 40000, Thorough: 800000, Profiles: []ProfileDef{
 		{Name: "fault-sweep", Share: 1, Sc: scC12Fault, Sweep: 240},
 		{Name: "close-sweep", Share: 1, Sc: scC12Close, Sweep: 200},
 		{Name: "handover", Share: 1, Sc: scC12Handover, Sweep: 200},
+		{Name: "ll-close", Share: 1, Sc: scC12LLClose, Sweep: 200},
 	}})
 }
